@@ -33,7 +33,7 @@ func TestMain(m *testing.M) { ev.Main(m) }
 type Case struct {
 	Backend string         `json:"backend"` // mem | os
 	Archive zipgen.Archive `json:"archive"`
-	Dest    string         `json:"dest_spelling"` // abs | abs/ | abs// | rel | ./rel | rel/ | x/../rel | abs-nonascii | dotdot | dotdot2
+	Dest    string         `json:"dest_spelling"` // abs | abs/ | abs// | rel | ./rel | rel/ | x/../rel | abs-nonascii | dotdot | dotdot2 | dot | empty | dotslash (the working directory itself)
 	Limits  string         `json:"limits"`        // none | nonrecursive | recursive
 }
 
@@ -281,6 +281,14 @@ func checkCase(t ev.T, test string, c Case) {
 			dest = destAbs
 		}
 	}
+	if c.Dest == "dot" || c.Dest == "empty" || c.Dest == "dotslash" {
+		// extraction into the working directory itself
+		must(raw.MkdirAll(destAbs, 0o755))
+		cwd, dest = destAbs, map[string]string{"dot": ".", "empty": "", "dotslash": "./"}[c.Dest]
+		if c.Backend != "os" {
+			dest = destAbs
+		}
+	}
 	if c.Backend == "os" {
 		must(os.Chdir(cwd))
 		defer func() { _ = os.Chdir(os.TempDir()) }()
@@ -384,8 +392,8 @@ func TestUnzipContainment(t *testing.T) {
 		c := Case{Backend: rapid.SampledFrom([]string{"mem", "mem", "os"}).Draw(rt, "backend")}
 		var h bool
 		c.Archive, h = genArchive(rt, "a", 0)
-		c.Dest = rapid.SampledFrom([]string{"abs", "abs", "abs/", "abs//", "rel", "./rel", "rel/", "x/../rel", "abs-nonascii", "dotdot", "dotdot2"}).Draw(rt, "dest")
-		if c.Dest == "dotdot" || c.Dest == "dotdot2" {
+		c.Dest = rapid.SampledFrom([]string{"abs", "abs", "abs/", "abs//", "rel", "./rel", "rel/", "x/../rel", "abs-nonascii", "dotdot", "dotdot2", "dot", "empty", "dotslash"}).Draw(rt, "dest")
+		if c.Dest == "dotdot" || c.Dest == "dotdot2" || c.Dest == "dot" || c.Dest == "empty" || c.Dest == "dotslash" {
 			c.Backend = "os" // only a backend with a working directory can be given such a destination
 		}
 		c.Limits = rapid.SampledFrom([]string{"none", "nonrecursive", "recursive", "recursive"}).Draw(rt, "limits")
